@@ -4,3 +4,5 @@ import CuriesVerif.Properties.C07
 import CuriesVerif.Properties.C02
 import CuriesVerif.Properties.C03
 import CuriesVerif.Properties.C06
+import CuriesVerif.Properties.C04
+import CuriesVerif.Properties.C05
